@@ -113,6 +113,11 @@ def check(chk, facts):
             ok &= e_ok
         n_loops = len([1 for _, t in f.calls() if callee(t).endswith("::next")])
         fl = _all_loops_unfiltered(f)
+        # which edges are walked: ALL out-going edges (direct and already-recorded indirect ones) at both levels
+        walked = sorted(callee(t).split("::")[-1] for _, t in f.calls() if "TCNode" in callee(t) and callee(t).split("::")[-1] in ("out_edges", "direct_edges", "indirect_edges", "parents", "ancestors"))
+        edges_ok = walked == ["out_edges", "out_edges"]
+        chk.ob(rule, "enforce_tc:edges", edges_ok, "enforce_tc walks %s (required: out_edges of the entity and out_edges of each of those — every recorded ancestor's ancestors must be recorded too)" % walked,
+               where=f.where(), fn=f.name, key="%s:enforce_tc:edges:%s" % (rule, ",".join(walked)))
         chk.ob(rule, "enforce_tc", ok and n_loops >= 3 and not fl, "a missing (entity, grandparent) edge is an error (%s); three nested unfiltered loops (%d next() sites, filters %s)" % (ok, n_loops, fl),
                where=f.where(), fn=f.name)
     for nm, test in (("enforce_dag_from_tc", "::contains"), ("enforce_dag_from_tc_for", "::has_edge_to")):
